@@ -2,6 +2,144 @@
 
 package c01
 
-import "testing"
+import (
+	"fmt"
+	"os"
+	"strings"
+	"testing"
 
-func replayOther(t *testing.T) { t.Skip("no such unit") }
+	"pgregory.net/rapid"
+
+	"servitor/pub"
+	"servitor/zverif/vgen"
+	"servitor/zverif/vrep"
+	"servitor/zverif/vsim"
+	"servitor/zverif/vui"
+)
+
+var sim *vsim.Sim
+
+func TestMain(m *testing.M) {
+	vsim.Init()
+	sim = vsim.New(2)
+	os.Exit(m.Run())
+}
+
+// NetCase: a raw HTTP response with hostile bytes in the status line, the headers or the body; whatever
+// error item (or item) results is rendered.
+type NetCase struct {
+	Status  string   `json:"status"`
+	Headers []string `json:"headers"`
+	Body    string   `json:"body"`
+	Handle  bool     `json:"handle,omitempty"` // fetch through a webfinger handle instead of a URL
+	Widths  []int    `json:"widths"`
+}
+
+func checkNet(c NetCase) vrep.Result {
+	prefix := sim.NewPrefix()
+	sim.ClearRoutes()
+	raw := c.Status + "\r\n" + strings.Join(c.Headers, "\r\n")
+	if len(c.Headers) > 0 {
+		raw += "\r\n"
+	}
+	raw += "\r\n" + c.Body
+	classes := []string{}
+	var item any
+	if c.Handle {
+		sim.Set(0, "*", &vsim.Route{Raw: raw})
+		item = pub.FetchUserInput("@u" + strings.TrimPrefix(prefix, "/k") + "@" + sim.Authority(0))
+		classes = append(classes, "via:webfinger")
+	} else {
+		sim.Set(0, prefix+"/doc", &vsim.Route{Raw: raw})
+		item = pub.New(sim.URL(0, prefix+"/doc"), nil)
+		classes = append(classes, "via:url")
+	}
+	for _, it := range vgen.Reach(item, 6) {
+		classes = append(classes, fmt.Sprintf("item:%T", it))
+		if err := cleanOrErr(fmt.Sprintf("%T.Name()", it), it.Name()); err != nil {
+			return vrep.Result{Classes: classes, Err: fmt.Errorf("%v\nresponse: %q", err, clip(raw))}
+		}
+		for _, w := range c.Widths {
+			if err := cleanOrErr(fmt.Sprintf("%T.String(%d)", it, w), it.String(w)); err != nil {
+				return vrep.Result{Classes: classes, Err: fmt.Errorf("%v\nresponse: %q", err, clip(raw))}
+			}
+			if err := cleanOrErr(fmt.Sprintf("%T.Preview(%d)", it, w), it.Preview(w)); err != nil {
+				return vrep.Result{Classes: classes, Err: fmt.Errorf("%v\nresponse: %q", err, clip(raw))}
+			}
+		}
+	}
+	hostile := strings.ContainsAny(raw, "\x1b\x07\x00\x7f\u009b") || strings.Contains(raw, "&#")
+	return vrep.Result{Classes: classes, Nontrivial: hostile}
+}
+
+func genNet(t *rapid.T) NetCase {
+	h := func(label string) string { return vgen.HostileString(t, label) }
+	c := NetCase{Handle: rapid.IntRange(0, 4).Draw(t, "handle") == 0, Widths: genWidths(t)}
+	switch rapid.IntRange(0, 5).Draw(t, "statuskind") {
+	case 0, 1:
+		c.Status = "HTTP/1.1 200 OK"
+	case 2:
+		c.Status = "HTTP/1.1 " + rapid.SampledFrom([]string{"404", "500", "302", "301", "204"}).Draw(t, "code") + " " + h("reason")
+	case 3:
+		c.Status = h("statusline")
+	case 4:
+		c.Status = "HTTP/1.1 2" + h("code") + "00 OK"
+	default:
+		c.Status = "HTTP/1." + h("minor") + " 200 OK"
+	}
+	for n := rapid.IntRange(0, 3).Draw(t, "nheaders"); n > 0; n-- {
+		switch rapid.IntRange(0, 4).Draw(t, "headerkind") {
+		case 0:
+			c.Headers = append(c.Headers, "Content-Type: application/activity+json")
+		case 1:
+			c.Headers = append(c.Headers, "Content-Type: "+h("ct"))
+		case 2:
+			c.Headers = append(c.Headers, "Content-Type: text/"+h("subtype")+"; charset="+h("param"))
+		case 3:
+			c.Headers = append(c.Headers, "Location: "+rapid.SampledFrom([]string{"https://", "http://", "", "/", "gemini://"}).Draw(t, "locscheme")+h("loc"))
+		default:
+			c.Headers = append(c.Headers, h("hname")+": "+h("hvalue"))
+		}
+	}
+	switch rapid.IntRange(0, 3).Draw(t, "bodykind") {
+	case 0:
+		c.Body = `{"type":"Note","content":` + vgen.JSONString(h("content")) + `,"name":` + vgen.JSONString(h("name")) + `}`
+	case 1:
+		c.Body = h("rawbody")
+	case 2:
+		c.Body = `{"type":` + h("badjson") + `}`
+	default:
+		c.Body = `{"subject":"x","links":[{"rel":` + vgen.JSONString(h("rel")) + `,"type":` + vgen.JSONString(h("type")) + `,"href":` + vgen.JSONString("https://"+h("href")) + `},{"rel":"self","type":"application/activity+json","href":` + vgen.JSONString(h("href2")) + `}]}`
+	}
+	return c
+}
+
+func TestNet(t *testing.T) { vrep.Run(t, "Net", true, genNet, checkNet) }
+
+// Frames: every frame emitted while browsing a hostile world with generated keys is terminal-clean.
+func checkFrames(c vui.HistCase) vrep.Result {
+	frames := 0
+	r := vui.RunHistory(sim, c, vui.Options{NoModel: true, OnFrame: func(frame string, w, h int) error {
+		frames++
+		return cleanOrErr(fmt.Sprintf("frame (%dx%d)", w, h), frame)
+	}})
+	r.Nontrivial = frames > 3
+	return r
+}
+
+func genFrames(t *rapid.T) vui.HistCase {
+	c := vui.GenHistCase(t)
+	c.World.Hostile = rapid.IntRange(1, 1000).Draw(t, "hostileseed")
+	return c
+}
+
+func TestFrames(t *testing.T) { vrep.Run(t, "Frames", true, genFrames, checkFrames) }
+
+func replayOther(t *testing.T) {
+	switch vrep.ReplayCheckName() {
+	case "Net":
+		vrep.Replay(t, "Net", checkNet)
+	default:
+		vrep.Replay(t, "Frames", checkFrames)
+	}
+}
